@@ -18,8 +18,11 @@ open Emboss.Scope
 #print axioms C12_abbreviation_private
 #print axioms C12_member_lookup
 #print axioms C12_member_lookup_rejects
-#print axioms C12_member_lookup_fuel
+#print axioms C12_member_lookup_depth
+#print axioms C12_member_lookup_total
+#print axioms C12_member_lookup_total_loop
 #print axioms C12_member_lookup_errors
 #print axioms C12_member_lookup_names
 #print axioms C12_abbreviation_tail_counterexample
-#print axioms C12_self_renaming_counterexample
+#print axioms C12_self_renaming_rejected
+#print axioms C12_self_recursion_counterexample
